@@ -11,7 +11,7 @@ TEXT = {
     "C02": ("one total order = the ghost log; per-stream segments, per-handle subsequences, claim step inside the call interval; tie: as C01 + order monitor", "invariant proof + event correspondence"),
     "C03": ("window invariant head <= pos s + N and tail-cache soundness for all reachable states; validWrap arithmetic; tie: event correspondence + window monitor", "invariant proof + event correspondence"),
     "C04": ("slot content is stable while any thread is inside a clone/view body (pin protocol + window); tie: payload type that yields inside Clone/view/Drop and self-checks", "invariant proof + event correspondence"),
-    "C05": ("payload ledger: every id owned by exactly one place or dropped once; tie: payload registry on every run + teardown orders", "invariant proof + ledger monitor"),
+    "C05": ("drop-site frame (only 4 program points drop, one value each), overwritten value already consumed by every registered stream (ring invariant), both destructor loops drop each written slot / each unconsumed position exactly once (induction over the loop, any state); tie: payload birth/clone/drop ledger of the harness on every real execution + all teardown orders + sequential differential; F5/F12 known", "invariant + loop-induction proofs (Lean) + ledger monitor on real executions"),
     "C06": ("quiescent states of Core abstract to Spec states; tie: quiescent fill/drain probe after every concurrent run", "refinement at quiescence + probe"),
     "C07": ("writers = live sender handles; Disconnected implies writers = 0 and position = head at the second tag load; stable afterwards; tie: disc family + end monitor", "invariant proof + event correspondence"),
     "C08": ("no-lost-wake-up invariant for BlockingWait, pairing of (seq, slot), every spin round evaluates check; tie: wake family under the deterministic scheduler with exact deadlock detection", "invariant proof + event correspondence"),
